@@ -15,7 +15,12 @@ use std::fmt::Write as _;
 // `core::fmt::write` / `alloc::fmt::format` are stubbed (formatting is not the
 // subject); the ARGUMENT expressions are still evaluated by the real code.
 
-pub fn fmt_write_stub(_out: &mut dyn core::fmt::Write, _args: core::fmt::Arguments<'_>) -> core::fmt::Result {
+/// Replaces `core::fmt::Formatter::write_fmt` (the call a `write!(f, ..)` inside a
+/// `Display::fmt` body makes): the argument expressions have been evaluated by then.
+pub fn fmt_write_stub<'a>(_f: &mut core::fmt::Formatter<'a>, _args: core::fmt::Arguments<'_>) -> core::fmt::Result
+where
+    'a: 'a,
+{
     Ok(())
 }
 
@@ -254,8 +259,8 @@ fn scalar_records<S: Src>(s: &mut S) {
 fn regset_roundtrip<S: Src>(s: &mut S) {
     use serde::de::value::{Error as DeErr, SeqDeserializer};
     use serde::Deserialize;
-    let m = u32::from(s.u8()) & 0x0f;
-    let shift = u32::from(s.choice(8)) * 4;
+    let m = u32::from(s.u8()) & 0x03;
+    let shift = u32::from(s.choice(16)) * 2;
     let mask = m << shift;
     let mut set = RegisterSet::new();
     let mut i: u8 = 0;
@@ -357,10 +362,10 @@ fn diag_sort3<S: Src>(s: &mut S) {
 }
 
 crate::obligations! {
-    #[kani::stub(core::fmt::write, crate::ob_misc::fmt_write_stub)]
+    #[kani::stub(core::fmt::Formatter::write_fmt, crate::ob_misc::fmt_write_stub)]
     fn abs_memloc_fmt(s) { abs_memloc_display(s) }
 
-    #[kani::stub(core::fmt::write, crate::ob_misc::fmt_write_stub)]
+    #[kani::stub(core::fmt::Formatter::write_fmt, crate::ob_misc::fmt_write_stub)]
     #[kani::stub(uuid::Uuid::new_v4, crate::stubs::uuid_counter)]
     fn abs_lint_fmt(s) { abs_lint_display(s) }
 
@@ -371,11 +376,19 @@ crate::obligations! {
         crate::witness!(!r.unsupported, "W:end");
     }
 
-    #[kani::unwind(8)]
+    #[kani::unwind(30)]
     fn serde_fact_injective(s) { fact_injective(s) }
     fn serde_scalar_records(s) { scalar_records(s) }
     #[kani::unwind(34)]
     fn serde_regset_roundtrip(s) { regset_roundtrip(s) }
+    #[kani::unwind(34)]
+    fn serde_regset_single(s) {
+        // a one-register set serializes to exactly that register's number
+        let r = s.reg();
+        let rec = record(&RegisterSet::from_register(mk::reg(r)));
+        assert!(!rec.unsupported && rec.n == 1 && rec.nums[0] == i64::from(r), "[C19] a one-register set does not serialize to that register");
+        crate::witness!(true, "W:end");
+    }
 
     #[kani::unwind(20)]
     fn diag_cmp_order(s) { diag_order(s) }
